@@ -18,6 +18,11 @@ def _am_inst(env):
     return _am(env, normalization="instance")
 
 
+def _am_layer(env):
+    """documented non-default encoder normalisation"""
+    return _am(env, normalization="layer")
+
+
 def _symnco(env):
     from rl4co.models.zoo import SymNCOPolicy
 
@@ -92,7 +97,7 @@ def _heatmap(env):
     return ConstructivePolicy(encoder=_HeatmapEncoder(), decoder=NonAutoregressiveDecoder(), env_name=env.name)
 
 
-FACTORIES = dict(heatmap=_heatmap, am=_am, am_inst=_am_inst, symnco=_symnco, ham=_ham, ptrnet=_ptrnet, ptrnet_mi0=_ptrnet_outer_mask_only, matnet=_matnet, polynet=_polynet, l2d=_l2d, mdam=_mdam)
+FACTORIES = dict(heatmap=_heatmap, am=_am, am_inst=_am_inst, am_layer=_am_layer, symnco=_symnco, ham=_ham, ptrnet=_ptrnet, ptrnet_mi0=_ptrnet_outer_mask_only, matnet=_matnet, polynet=_polynet, l2d=_l2d, mdam=_mdam)
 
 # (policy key, spec key, flags).  follows_base: forward is ConstructivePolicy.forward (decoder protocol usable by the harness)
 PAIRS = [
@@ -113,6 +118,9 @@ PAIRS = [
     ("am_inst", "tsp", dict(base=True)),
     ("symnco", "tsp", dict(base=True)),
     ("ham", "pdp", dict(base=True)),
+    ("am_layer", "tsp", dict(base=True)),
+    ("am_layer", "cvrp", dict(base=True)),
+    ("am_inst", "tsp", dict(base=True)),
     ("ptrnet", "tsp", dict(base=False, eval_kw="eval_tours")),
     ("ptrnet_mi0", "tsp", dict(base=False, eval_kw="eval_tours")),
     ("matnet", "atsp", dict(base=True, rng_at_inference=True)),
